@@ -1,12 +1,4 @@
-import Driver.Util
+import Driver.HeapCommon
 import Driver.Loop
-open Lean Drv
 
-namespace DrvC04
-
-/-- Stub: replaced when the model of C04 is built. -/
-def handle (_j : Json) : Except String Json := throw "model of C04 not built"
-
-end DrvC04
-
-def main : IO Unit := Drv.runLoop DrvC04.handle
+def main : IO Unit := Drv.runLoop DrvHeap.handle
